@@ -22,6 +22,11 @@ for name in names:
     meta = json.load(open(meta_path)) if os.path.exists(meta_path) else {}
     am = json.load(open(f"{d}/agent_meta.json")) if os.path.exists(f"{d}/agent_meta.json") else {}
     checks = meta.get("checks_to_run") or [prop]
+    if meta.get("superseded"):
+        # the change can no longer break the property on the current tree (see the note); kept for the record
+        results[name] = {"property": prop, "superseded": meta["superseded"], **{k: v["detected"] for k, v in meta.get("runs", {}).items()}}
+        print(name, "superseded:", meta["superseded"][:100])
+        continue
     out = subprocess.run([f"{ROOT}/selftest/mut.sh", f"{d}/patch.diff", checks[0], tier], capture_output=True, text=True).stdout
     m = re.search(r"exit=(\d+)", out)
     rc = int(m.group(1)) if m else -1
